@@ -77,12 +77,7 @@ func (conv) Run(line string) string {
 		return "bad-op"
 	}
 	if f[0] == "consts" {
-		cs := num.VerifC02Consts()
-		out := make([]string, len(cs))
-		for i, c := range cs {
-			out[i] = fbits(c)
-		}
-		return strings.Join(out, " ")
+		return constsLine() // white-box view (consts_overlay.go) or the token `consts-unavailable` (consts_stub.go)
 	}
 	if len(f) < 3 {
 		return "bad-op"
